@@ -539,11 +539,12 @@ def r13_7(ctx):
         ctx.check(gs == [("self._is_original", True), ("self.master", True)], "Stage._set_transcribed acts for every original stage attached to an OCP", detail="invalidation skipped",
                   expected="if self.master: if self._is_original:", found=gs, fi=f)
     g = prog.own_method("Stage", "_is_transcribed")
-    rets = [(ast.unparse(r.value), [(ast.unparse(t), p) for t, p in ctx.scope(g).path_guards(r)]) for r in walk_no_nested(g.node) if isinstance(r, ast.Return)]
+    from ..norm import return_cases
+    rets = return_cases(ctx.scope(g))
     want = [("self.master._var_is_transcribed", [("self._is_original", True)]), ("self._original._is_transcribed", [("self._is_original", False)])]
     ctx.check(rets == want, "Stage._is_transcribed reads the same flag", detail="reader and writer of the transcription flag disagree", expected=want, found=rets, fi=g)
     h = prog.own_method("Stage", "is_transcribed")
-    rets = [(ast.unparse(r.value), [(ast.unparse(t), p) for t, p in ctx.scope(h).path_guards(r)]) for r in walk_no_nested(h.node) if isinstance(r, ast.Return)]
+    rets = return_cases(ctx.scope(h))
     want = [("self.master._is_transcribed", [("self.master", True)]), ("False", [("self.master", False)])]
     ctx.check(rets == want, "Stage.is_transcribed asks the master", detail="transcription state read from the wrong object", expected=want, found=rets, fi=h)
     t = prog.own_method("Ocp", "_transcribe")
